@@ -70,6 +70,7 @@ type ContractFile struct {
 	Ghosts  []string    // file-level ghost globals: "name type"
 	Guards  [][3]string // guarded_by T.field mutexfield
 	Uses    [][2]string // use name "import/path": which import a package name means when two imports share it
+	Relev   [][]string  // relevance <package path suffix> P1 P2 ...: every block of the packages under that path also counts for these properties
 }
 
 var clauseWords = map[string]bool{
@@ -77,7 +78,7 @@ var clauseWords = map[string]bool{
 	"requires": true, "ensures": true, "panics": true, "may_panic": true, "modifies": true, "assigns": true,
 	"loop": true, "ghost": true, "at": true, "trusted": true, "inline": true, "pure": true, "props": true,
 	"spec": true, "axiom": true, "event": true, "env": true, "assume": true, "decreases": true, "global": true,
-	"havoc": true, "nopanic": true, "fresh": true, "nilsafe": true, "guarded_by": true, "use": true, "captures": true, "var": true, "import": true, "let": true,
+	"havoc": true, "nopanic": true, "fresh": true, "nilsafe": true, "guarded_by": true, "use": true, "relevance": true, "captures": true, "var": true, "import": true, "let": true,
 }
 
 var labelRe = regexp.MustCompile(`^\[([A-Za-z0-9_.<>=+\-/ ]+)\]\s*`)
@@ -189,6 +190,13 @@ func ParseContractText(path, pkgPath, src string) (*ContractFile, error) {
 				return nil, errf("use needs 'name \"import/path\"'")
 			}
 			cf.Uses = append(cf.Uses, [2]string{f[0], strings.Trim(f[1], "\"")})
+			continue
+		case "relevance":
+			f := strings.Fields(rest)
+			if len(f) < 2 {
+				return nil, errf("relevance needs a package path and properties")
+			}
+			cf.Relev = append(cf.Relev, f)
 			continue
 		case "guarded_by":
 			// guarded_by T.field mutexfield: every access to the field needs the mutex of the same object held
